@@ -9,7 +9,7 @@ from __future__ import annotations
 
 import z3
 
-from pyvc.api import A, FnSpec, LoopSpec
+from pyvc.api import A, ContractStale, FnSpec, LoopSpec
 from pyvc.containers import INT, STR, ClassDecl, SMap, SObj, SRef, SSeq, SSet, TRef, TSetT, TTuple
 from pyvc.engine import SClass
 from pyvc.values import SBool, SInt, SStr, STuple, SVal, Unsupported, fresh_name
@@ -1619,6 +1619,116 @@ class FreshUuid(FnSpec):
         ]
 
 
+# ---- TOCLinks.find_missing: which metadata objects below a group the TOC does not know --------------------------------------------------
+IS_META_PATH = z3.Function("path_has_a_metador_meta_segment", S_, z3.BoolSort())  # M.is_internal_path(path, METADOR_META_PREF)
+IS_META_BASE = z3.Function("path_is_a_metadata_directory", S_, z3.BoolSort())  # M.is_meta_base_path (its own contract, specs/metapaths.py)
+RESOLVED = z3.Function("path_the_link_of_uuid_points_to", UU, S_)  # TOCLinks.resolve
+
+
+class FMNode(SVal):
+    def __init__(self, t):
+        self.t = t
+
+    def py_getattr(self, cx, n):
+        if n == "name":
+            return SStr(NODE_PATH(self.t))
+        raise Unsupported("node attribute " + n)
+
+
+class FMStored(SVal):
+    def __init__(self, n_t):
+        self.n_t = n_t
+
+    def py_getattr(self, cx, n):
+        if n == "uuid":
+            return UuidV(UUID_IN_NAME(self.n_t))
+        raise Unsupported("stored metadata attribute " + n)
+
+
+class FMCollected(SVal):
+    def __init__(self):
+        self.parts = []
+
+
+class FMGroup(SVal):
+    def __init__(self, start_path):
+        self.start_path = start_path
+
+    def meth_visititems(self, cx, cb):
+        from pyvc.api import read_guarded_append_callback
+
+        a = cx.ghost["fm"]
+        target, pred = read_guarded_append_callback(cx.run.interp, cx, cb, cx.run.spec, lambda t: FMNode(t))
+        if target is not a.collected:
+            raise ContractStale("the visit callback appends to something else than the result list")
+        a.collected.parts.append((self.start_path, pred))
+
+
+class FindMissing(FnSpec):
+    file = "container/interface.py"
+    qual = "TOCLinks.find_missing"
+    props = ("C06",)
+
+    def init(self):
+        class MNS(SVal):
+            def py_getattr(s, cx, n):
+                if n == "METADOR_META_PREF":
+                    return "metador_meta_"
+                if n == "is_internal_path":
+                    return lambda cx2, p, pref: SBool(IS_META_PATH(p.t)) if pref == "metador_meta_" else (_ for _ in ()).throw(Unsupported("another prefix"))
+                if n == "is_meta_base_path":
+                    return lambda cx2, p: SBool(IS_META_BASE(p.t))
+                raise Unsupported("M." + n)
+
+        self.bindings["M"] = MNS()
+        self.bindings["StoredMetadata"] = type("SM", (SVal,), {"meth_from_node": lambda s, cx, n: FMStored(n.t)})()
+
+    def empty_container(self, cx, name, ann):
+        return cx.ghost["fm"].collected if name == "missing" else None
+
+    def setup(self, cx):
+        o = SObj("TOCLinksFind", name="self")
+        tp = SMap.fresh(TUuid(), STR, "toc_path")
+        o.fields["_toc_path"] = tp
+        o.fields["resolve"] = lambda cx2, u: SStr(RESOLVED(u.t))
+        start = z3.String("start_group_path")
+
+        class Raw(SVal):
+            def meth_require_group(s, cx2, p):
+                if not z3.eq(p.t, start):
+                    raise Unsupported("require_group of another path")
+                return FMGroup(start)
+
+        o.fields["_raw"] = Raw()
+
+        class PathObj(SVal):
+            def py_getattr(s, cx2, n):
+                if n == "name":
+                    return SStr(start)
+                raise Unsupported("group attribute " + n)
+
+        a = A(self=o, path=PathObj())
+        a.tp, a.start = tp, start
+        a.collected = FMCollected()
+        cx.ghost["fm"] = a
+        return a
+
+    def raises(self, cx, a):
+        return {}
+
+    def ensures(self, cx, a, res):
+        if res is not a.collected or len(a.collected.parts) != 1:
+            return [("the-collected-list", z3.BoolVal(False), "returns the list filled by one visit of the given group")]
+        start, pred = a.collected.parts[0]
+        n = z3.Const(fresh_name("fmn"), MNode)
+        u = UUID_IN_NAME(n)
+        want = z3.And(IS_META_PATH(NODE_PATH(n)), z3.Not(IS_META_BASE(NODE_PATH(n))), z3.Or(z3.Not(a.tp.has(u)), RESOLVED(u) != NODE_PATH(n)))
+        return [
+            ("visits-the-given-group", z3.BoolVal(z3.eq(start, a.start)), "the nodes considered are those below the given group"),
+            ("exactly-the-metadata-objects-the-toc-does-not-point-at", z3.ForAll([n], pred(n) == want), "a visited node is reported exactly when it is a metadata object (inside a metador_meta_ directory, not the directory itself) whose uuid the TOC does not know — or knows as pointing somewhere else (a copy carrying the original's uuid)"),
+        ]
+
+
 def add_tocreg(reg):
     reg.set_class_home("TOCPackages", "container/interface.py")
     reg.attr_bindings[("PkgInfo", "plugins")] = lambda cx, o: PluginsStub(o.t)
@@ -1627,11 +1737,12 @@ def add_tocreg(reg):
     reg.set_class_home("TOCLinks", "container/interface.py")
     reg.set_class_home("TOCLinksRepair", "container/interface.py", "TOCLinks")
     reg.set_class_home("TOCLinksFresh", "container/interface.py", "TOCLinks")
+    reg.set_class_home("TOCLinksFind", "container/interface.py", "TOCLinks")
     reg.attr_bindings[("PkgInfo", "name")] = lambda cx, o: SStr(INFO_NAME(o.t))
     reg.attr_bindings[("PkgInfo", "version")] = lambda cx, o: VER.wrap(INFO_VER(o.t))
     reg.attr_bindings[("SchemaRef", "name")] = lambda cx, o: SStr(REF_NAME(o.t))
     reg.attr_bindings[("SchemaRef", "version")] = lambda cx, o: VER.wrap(REF_VER(o.t))
-    specs = [AddProviders(), PkgRegister(), PkgUnregister(), SchemaRegister(), SchemaUnregister(), LinksRegister(), LinksUnregister(), LinksUpdate(), SchemasInit(), PackagesInit(), LinksInit(), RepairMissing(), FreshUuid()]
+    specs = [AddProviders(), PkgRegister(), PkgUnregister(), SchemaRegister(), SchemaUnregister(), LinksRegister(), LinksUnregister(), LinksUpdate(), SchemasInit(), PackagesInit(), LinksInit(), RepairMissing(), FreshUuid(), FindMissing()]
     for s in specs:
         reg.add(s)
     return specs
